@@ -147,6 +147,7 @@ struct Run {
         std::string k;
         int klass = s.pick({5, 3, 1, 1});
         size_t len = klass == 0 ? (size_t)s.range(1, 3) : klass == 1 ? (size_t)s.range(1, 8) : klass == 2 ? (size_t)s.range(8, 40) : (size_t)s.range(1, 4);
+        if (klass == 2 && s.chance(1, 8)) { static const size_t edge[] = {64, 128, 256, 1024}; len = edge[s.range(0, 3)] + (size_t)s.range(0, 2) - 1; }   // long keys around power-of-two sizes
         static const char alpha[] = "abAB01z";
         for (size_t i = 0; i < len; i++) {
             if (strkeys) { if (klass == 3) { int v = (int)s.range(1, 255); k.push_back((char)v); } else k.push_back(alpha[s.range(0, 6)]); }
@@ -158,6 +159,7 @@ struct Run {
     std::string gen_val(bool str) {
         int klass = s.pick({6, 3, 1});
         size_t len = klass == 0 ? (size_t)s.range(1, 8) : klass == 1 ? (size_t)s.range(9, 64) : (size_t)s.range(65, 300);
+        if (s.chance(1, 40)) { static const size_t edge[] = {128, 256, 512, 1024, 4096}; len = edge[s.range(0, 4)] + (size_t)s.range(0, 2) - 1; }
         int fill = (int)s.range(0, 3);
         uint32_t x = (uint32_t)s.u8() * 2654435761u + 12345u;
         std::string v;
